@@ -303,6 +303,9 @@ end
 @[gomini] theorem asList_nil : asList .nil = some [] := rfl
 @[gomini] theorem truthy_bool (b : Bool) : truthy (.bool b) = .ok b := rfl
 @[gomini] theorem flowResult_ret1 (v : Val) : flowResult (.ret [v]) = v := rfl
+@[gomini] theorem flowResult_ret2 (a b : Val) (rest : List Val) : flowResult (.ret (a :: b :: rest)) = .tup (a :: b :: rest) := rfl
+@[gomini] theorem flowResult_ret0 : flowResult (.ret []) = .tup [] := rfl
+@[gomini] theorem flowResult_next : flowResult .next = .tup [] := rfl
 @[gomini] theorem binVal_int (op : String) (a b : Int) : binVal op (.int a) (.int b) = binInt op a b := rfl
 
 @[gomini] theorem binVal_nil_nil (op : String) : binVal op .nil .nil =
